@@ -662,3 +662,153 @@ pub fn c05_special(rec: &mut Rec) {
         }
     }
 }
+
+// ---------------------------------------------------------------------------------------------
+// C10 on the special APIs
+// ---------------------------------------------------------------------------------------------
+
+fn c10_cmp(rec: &mut Rec, sch: &str, entry: &str, op: &str, id: &str, want: bool, got: &Dec) {
+    rec.count_points(1);
+    rec.op(2);
+    let opc: String = op.chars().filter(|c| !c.is_ascii_digit()).collect();
+    rec.class(if want { "relation-holds" } else { "relation-fails" });
+    rec.class(&format!("lib-{}", got.class()));
+    rec.obs(&format!("{}|{}|{}|{}|{}", sch, entry, opc, want, got.class()));
+    if got.accepted() != want {
+        let dir = if got.accepted() { "lib-accepts" } else { "lib-rejects" };
+        rec.violation(&format!("C10/{}/{}/{}/{}", sch, entry, opc, dir), id, format!("{}: library -> {}, reference relation -> {}", op, got.short(), want));
+    }
+}
+
+pub fn c10_special(rec: &mut Rec) {
+    use crate::pmut::{f_alpha, g_alpha};
+    use crate::refm::*;
+    type G1 = <E381 as Pairing>::G1Affine;
+    type G2 = <E381 as Pairing>::G2Affine;
+    let dmax = if rec.thorough() { 4 } else { 2 };
+    let mut prev: Option<KzgT> = None;
+    kzg_transcripts(rec, dmax, |rec, _pp, vk, t| {
+        let rel = |vk: &VerifierKey<E381>, c: &kzg10::Commitment<E381>, z: Fr381, v: Fr381, pf: &kzg10::Proof<E381>| {
+            kzg_relation::<E381>(vk.g, vk.gamma_g, vk.h, vk.beta_h, c.0.into_group(), z, v, pf)
+        };
+        let both = |rec: &mut Rec, op: &str, vk: &VerifierKey<E381>, c: &kzg10::Commitment<E381>, z: Fr381, v: Fr381, pf: &kzg10::Proof<E381>| {
+            let want = rel(vk, c, z, v, pf);
+            let got = kzg_check(vk, c, z, v, pf);
+            c10_cmp(rec, "KZG", "check", op, &t.id, want, &got);
+            let got = kzg_batch_check(vk, &[*c], &[z], &[v], &[*pf], rec.seed, 0);
+            c10_cmp(rec, "KZG", "batch_check", op, &t.id, want, &got);
+        };
+        both(rec, "honest", vk, &t.comm, t.point, t.value, &t.proof);
+        let ow = prev.as_ref().map(|p| p.proof).unwrap_or(t.proof);
+        let oc = prev.as_ref().map(|p| p.comm.0).unwrap_or(t.comm.0);
+        for (n, f) in f_alpha(&t.value, None, rec.seed) {
+            both(rec, &format!("value:={}", n), vk, &t.comm, t.point, f, &t.proof);
+        }
+        for (n, f) in f_alpha(&t.point, None, rec.seed) {
+            both(rec, &format!("point:={}", n), vk, &t.comm, f, t.value, &t.proof);
+        }
+        for (n, g) in g_alpha::<G1>(&t.comm.0, Some(&oc), rec.seed) {
+            both(rec, &format!("commitment:={}", n), vk, &kzg10::Commitment(g), t.point, t.value, &t.proof);
+        }
+        for (n, m) in kzg_proof_muts(&t.proof, &ow, rec.seed) {
+            both(rec, &format!("proof.{}", n), vk, &t.comm, t.point, t.value, &m);
+        }
+        for (n, g) in g_alpha::<G1>(&vk.g, Some(&vk.gamma_g), rec.seed) {
+            let mut k = vk.clone();
+            k.g = g;
+            both(rec, &format!("vk.g:={}", n), &k, &t.comm, t.point, t.value, &t.proof);
+        }
+        for (n, g) in g_alpha::<G1>(&vk.gamma_g, Some(&vk.g), rec.seed) {
+            let mut k = vk.clone();
+            k.gamma_g = g;
+            both(rec, &format!("vk.gamma_g:={}", n), &k, &t.comm, t.point, t.value, &t.proof);
+        }
+        for (n, g) in g_alpha::<G2>(&vk.h, Some(&vk.beta_h), rec.seed) {
+            let mut k = vk.clone();
+            k.h = g;
+            k.prepared_h = g.into();
+            both(rec, &format!("vk.h:={}", n), &k, &t.comm, t.point, t.value, &t.proof);
+        }
+        for (n, g) in g_alpha::<G2>(&vk.beta_h, Some(&vk.h), rec.seed) {
+            let mut k = vk.clone();
+            k.beta_h = g;
+            k.prepared_beta_h = g.into();
+            both(rec, &format!("vk.beta_h:={}", n), &k, &t.comm, t.point, t.value, &t.proof);
+        }
+        rec.sample("KZG-c10", format!("{}: single-component replacements on check and batch_check vs the pairing relation", t.id));
+        prev = Some(KzgT { id: t.id.clone(), poly: t.poly.clone(), comm: t.comm, rand: t.rand.clone(), point: t.point, value: t.value, proof: t.proof });
+    });
+    let nvmax = if rec.thorough() { 3 } else { 2 };
+    mlp_transcripts(rec, nvmax, |rec, _ck, vk, t| {
+        if t.id.ends_with("sparse") {
+            return;
+        }
+        let both = |rec: &mut Rec, op: &str, vk: &mlpd::VerifierKey<E381>, c: &mlpd::Commitment<E381>, z: &[Fr381], v: Fr381, pf: &mlpd::Proof<E381>| {
+            let want = ref_mlp_check::<E381>(vk.nv, vk.g, vk.h, &vk.g_mask_random, c.g_product, z, v, &pf.proofs);
+            let got = mlp_check(vk, c, z, v, pf);
+            c10_cmp(rec, "MLP", "check", op, &t.id, want, &got);
+        };
+        both(rec, "honest", vk, &t.comm, &t.point, t.value, &t.proof);
+        for (n, f) in f_alpha(&t.value, None, rec.seed) {
+            both(rec, &format!("value:={}", n), vk, &t.comm, &t.point, f, &t.proof);
+        }
+        for i in 0..t.nv {
+            for (n, f) in f_alpha(&t.point[i], None, rec.seed).into_iter().take(3) {
+                let mut z = t.point.clone();
+                z[i] = f;
+                both(rec, &format!("point[{}]:={}", i, n), vk, &t.comm, &z, t.value, &t.proof);
+            }
+            for (n, g) in g_alpha::<G2>(&t.proof.proofs[i], Some(&t.proof.proofs[(i + 1) % t.nv]), rec.seed) {
+                let mut p = t.proof.clone();
+                p.proofs[i] = g;
+                both(rec, &format!("proof.proofs[{}]:={}", i, n), vk, &t.comm, &t.point, t.value, &p);
+            }
+            for (n, g) in g_alpha::<G1>(&vk.g_mask_random[i], Some(&vk.g), rec.seed) {
+                let mut k = vk.clone();
+                k.g_mask_random[i] = g;
+                both(rec, &format!("vk.g_mask[{}]:={}", i, n), &k, &t.comm, &t.point, t.value, &t.proof);
+            }
+        }
+        for (n, g) in g_alpha::<G1>(&t.comm.g_product, Some(&vk.g), rec.seed) {
+            let mut c = t.comm.clone();
+            c.g_product = g;
+            both(rec, &format!("commitment:={}", n), vk, &c, &t.point, t.value, &t.proof);
+        }
+        for (n, g) in g_alpha::<G1>(&vk.g, None, rec.seed) {
+            let mut k = vk.clone();
+            k.g = g;
+            both(rec, &format!("vk.g:={}", n), &k, &t.comm, &t.point, t.value, &t.proof);
+        }
+        for (n, g) in g_alpha::<G2>(&vk.h, None, rec.seed) {
+            let mut k = vk.clone();
+            k.h = g;
+            both(rec, &format!("vk.h:={}", n), &k, &t.comm, &t.point, t.value, &t.proof);
+        }
+        rec.sample("MLP-c10", format!("{}: single-component replacements vs the pairing relation", t.id));
+    });
+    str_transcripts(rec, dmax, |rec, ck, vk, t| {
+        let stream = skzg::CommitterKeyStream::from(ck);
+        let g = *stream.powers_of_g.0.first().unwrap();
+        let h = stream.powers_of_g2[0];
+        let tau_h = stream.powers_of_g2[1];
+        let both = |rec: &mut Rec, op: &str, c: &skzg::Commitment<E381>, z: Fr381, v: Fr381, pf: &skzg::EvaluationProof<E381>| {
+            let want = ref_str_check::<E381>(g, h, tau_h, c.verif_inner(), z, v, pf.0);
+            let got = str_verify(vk, c, &z, &v, pf);
+            c10_cmp(rec, "STR", "verify", op, &t.id, want, &got);
+        };
+        both(rec, "honest", &t.comm, t.point, t.value, &t.proof);
+        for (n, f) in f_alpha(&t.value, None, rec.seed) {
+            both(rec, &format!("value:={}", n), &t.comm, t.point, f, &t.proof);
+        }
+        for (n, f) in f_alpha(&t.point, None, rec.seed) {
+            both(rec, &format!("point:={}", n), &t.comm, f, t.value, &t.proof);
+        }
+        for (n, x) in g_alpha::<G1>(&t.comm.verif_inner(), Some(&g), rec.seed) {
+            both(rec, &format!("commitment:={}", n), &skzg::Commitment::verif_from_inner(x), t.point, t.value, &t.proof);
+        }
+        for (n, x) in g_alpha::<G1>(&t.proof.0, Some(&g), rec.seed) {
+            both(rec, &format!("proof:={}", n), &t.comm, t.point, t.value, &skzg::EvaluationProof(x));
+        }
+        rec.sample("STR-c10", format!("{}: single-component replacements vs the pairing relation", t.id));
+    });
+}
